@@ -335,7 +335,8 @@ def c05h(tree, ob):
     else:
         ob.site('bp/encoding/bundle.py', loops[0], 'Bundle.fill_fields covers primary and every block')
     fx = FuncView(tree, BLOCKS, 'AbstractBlock.fill_fields')
-    sets = [n for n in walk_local(fx.func) if isinstance(n, ast.Assign) and pm('self.fields[self.crc_value_name]', n.targets[0]) is not None and pm("defn['encode'](0)", n.value) is not None]
+    sets = [n for n in walk_local(fx.func) if isinstance(n, ast.Assign) and pm('self.fields[self.crc_value_name]', n.targets[0]) is not None and
+            pm("AbstractBlock.CRC_DEFN[crc_type]['encode'](0)", fx.value_at(n.value, n, depth=3, keep=('crc_type',))) is not None]
     if not sets or not fx.has(sets[0], 'crc_type', True):
         ob.violate(BLOCKS, fx.qual, "self.fields[crc_value_name] = defn['encode'](0)", 'a block with a CRC type does not get a placeholder of the right width', fx.func)
 
